@@ -250,7 +250,20 @@ Theorem C19_deadline_attempts_meaning : forall dmin slack, (0 <= slack)%Z -> for
   (prev + Z.of_nat (length dones) * (dmin - slack) <= last dones prev)%Z.
 Proof. exact block_ok_total. Qed.
 
+(** a message that arrives with a deadline already on its context: under any chain of simple
+    middlewares the handler sees the earlier of that deadline and the chain's Timeouts (never a
+    later one), and after the call the message has exactly the deadline it came with *)
+Theorem C19_arriving_deadline : forall mws s w, forallb is_simple mws = true ->
+  let seen := view (entry_msg mws (w_msg w)) in
+  w_trace (fst (stack repaired mws (scripted s) w)) = w_trace w ++ [ECall (w_calls w) seen]
+  /\ v_deadline seen = dl_min (m_base_dl (w_msg w)) (min_deadline (push_layers mws (m_ctx (w_msg w))))
+  /\ (forall b, m_base_dl (w_msg w) = Some b -> exists d, v_deadline seen = Some d /\ (d <= b)%Z)
+  /\ m_base_dl (w_msg (fst (stack repaired mws (scripted s) w))) = m_base_dl (w_msg w)
+  /\ v_deadline (view (w_msg (fst (stack repaired mws (scripted s) w)))) = v_deadline (view (w_msg w)).
+Proof. exact arriving_deadline. Qed.
+
 Print Assumptions C19_timeout_transparent.
+Print Assumptions C19_arriving_deadline.
 Print Assumptions C19_deadline_lower_bound.
 Print Assumptions C19_deadline_attempts.
 Print Assumptions C19_deadline_attempts_meaning.
@@ -289,7 +302,7 @@ Print Assumptions C19_composes_with_retry_refuted.
 Example C19_witness :
   let '(w, r) := stack repaired [MRetry 3; MTimeout 5; MDelay (DCfg 100 1000 3 2)]
                    (scripted [Call [] (Fail [] (EBase 7)); Call [] (Fail [] (EBase 7)); Call [] (Ret [OSelf])])
-                   (init_world (MSt [] [] false Unsettled)) in
+                   (init_world (MSt [] [] false Unsettled None)) in
   w_calls w = 3%nat /\ r = Ret [OSelf] /\ m_ctx (w_msg w) = []
   /\ mget K_DFOR (m_meta (w_msg w)) = MDur 150
   /\ map (fun e => match e with ECall _ v => (v_done v, v_deadline v) | _ => (true, None) end) (w_trace w)
